@@ -3,6 +3,10 @@
 import json, subprocess
 ALL = ["C%02d" % i for i in range(1, 21)]
 CHECKS = {
+ "C03": dict(level="fault_enumeration", design="§4 C03",
+   technique="runtime monitoring with fault enumeration: all ordered pairs of close causes fired at one virtual instant on every transport, goroutines held at hooked check-then-act windows and released in every order; per-session trace automaton over the event/ready-state log; registry invariant",
+   text="Every single cause and every ordered pair of {peer disconnect, transport error, heartbeat expiry, Close(false), Close(true), Server.Close, parse error} is injected on polling, WebSocket and in-memory WebTransport sessions; goroutines arriving in socket.OnClose.window / socket.Close.window / server.Handshake.afterNewSocket are held and released in both orders (triples and PRNG orders in thorough). An automaton over the tap log checks forward-only state writes, exactly one close event with a reason attributable to an injected cause, silence after close, connection events only for open sessions, silent Send after close, and sessions without a cause staying open.",
+   note="The pair space is enumerated completely; orders of release are enumerated for the hooked windows only. While a goroutine is held the harness settles on real time (2 ms) because the held goroutine can own a sync.Once of the emitter."),
  "C07": dict(level="exploration", design="§4 C07",
    technique="runtime monitoring on virtual time: offline checker over exact virtual timestamps of ping packetCreate, heartbeat and close events under a client-delay grid; gate lane between ping send and timeout arming; wrong-direction and EIO-mismatch lanes",
    text="Sessions run inside a synctest bubble so PI and PT deadlines are hit exactly; the client answers each ping at 0, PT/2, PT-1ns, PT, PT+1ns, never, twice or unsolicited (v4), or pings at fractions of PI+PT including exactly PI+PT (v3); the checker demands each ping exactly PI after open / after the accepted pong, 'ping timeout' exactly at ping+PT and never for a client that answered in time, v3 pongs for every ping and expiry exactly PI+PT after the last ping, and a transport-error close (only of that session) for wrong-direction heartbeats incl. sessions whose upgrade transport used another EIO value.",
